@@ -42,7 +42,7 @@ pub fn profile(name: &str) -> Profile {
         // schedules: C02 C06 C08 C10 C11 C12
         "caches" => Profile { name: "caches", quiescent: false, nclients: 3, lifecycle: true, tight: true, small_buf: true, steps: (30, 90), ..base },
         // every configuration: C20
-        "cachecfg" => Profile { name: "cachecfg", tight: true, small_buf: true, lifecycle: true, steps: (25, 60), ..base },
+        "cachecfg" => Profile { name: "cachecfg", flavour: 2, tight: true, small_buf: true, lifecycle: true, steps: (25, 60), ..base },
         // async flavour of the above
         "cacheqa" => Profile { name: "cacheqa", flavour: 1, tight: true, validators: true, costers: true, lifecycle: true, ..base },
         "cachesa" => Profile { name: "cachesa", flavour: 1, quiescent: false, nclients: 3, lifecycle: true, tight: true, small_buf: true, steps: (30, 90), ..base },
@@ -62,7 +62,7 @@ fn gen_config(rng: &mut Rng, p: &Profile) -> Config {
     };
     Config {
         is_async,
-        ctrs: if p.name == "cachecfg" { *rng.pick(&[1usize, 2, 3, 5, 7, 16, 33, 70]) } else { *rng.pick(&[16usize, 64, 7]) },
+        ctrs: if p.name == "cachecfg" { if rng.chance(1, 2) { 1 + rng.below(70) as usize } else { *rng.pick(&[1usize, 2, 3, 5, 7, 16, 33, 70, 127, 129, 1000]) } } else { *rng.pick(&[16usize, 64, 7]) },
         max_cost,
         buf_cap: if p.small_buf { *rng.pick(&[1usize, 2, 3, 16]) } else { 64 },
         buffer_items: *rng.pick(&[0usize, 1, 2, 3, 64]),
